@@ -53,6 +53,11 @@ class Property:
     rule = ''
     assumptions = ()
     float_tol = 1e-9
+    # source anchors of the hand-modelled code: (file relative to the repo, top-level or Class.method name | None = whole file).
+    # When the text of an anchor differs from the pinned hash (tools/pins.json) the model may be stale:
+    # the correspondence and the oracle are then run on `escalation` times as many cases.
+    anchors = ()
+    escalation = 6
 
     # ---- to be provided by subclasses -------------------------------------------------
     def corpus(self):
@@ -209,6 +214,45 @@ def run_driver(driver, lines):
     return rc == 0 and len(res) == len(lines), res
 
 
+def anchor_hashes(prop):
+    import ast
+    out = {}
+    for rel, name in prop.anchors:
+        key = rel + ('::' + name if name else '')
+        try:
+            src = open(os.path.join(REPO, rel), encoding='utf-8').read()
+            if name:
+                node = ast.parse(src)
+                for part in name.split('.'):
+                    node = next(n for n in ast.walk(node) if isinstance(n, (ast.FunctionDef, ast.ClassDef)) and n.name == part)
+                src = ast.dump(node)          # insensitive to comments / layout, sensitive to any code change
+            out[key] = hashlib.sha1(src.encode()).hexdigest()
+        except Exception as e:
+            out[key] = 'unreadable:' + type(e).__name__
+    return out
+
+
+def changed_anchors(prop):
+    try:
+        pins = json.load(open(os.path.join(VERIF, 'tools', 'pins.json'))).get(prop.pid, {})
+    except OSError:
+        pins = {}
+    cur = anchor_hashes(prop)
+    return sorted(k for k, v in cur.items() if pins.get(k) != v)
+
+
+def pin(prop):
+    p = os.path.join(VERIF, 'tools', 'pins.json')
+    try:
+        pins = json.load(open(p))
+    except OSError:
+        pins = {}
+    pins[prop.pid] = anchor_hashes(prop)
+    with open(p, 'w') as f:
+        json.dump(pins, f, indent=1, sort_keys=True)
+    print('pinned', prop.pid, len(pins[prop.pid]), 'anchors')
+
+
 def load_known():
     p = os.path.join(VERIF, 'known_findings.jsonl')
     open_, fixed = {}, []
@@ -248,6 +292,10 @@ def check(prop, tier, seed):
     pid = prop.pid
     rng = random.Random('%s-%s' % (pid, seed))
     n = prop.n_quick if tier == 'quick' else prop.n_thorough
+    stale = changed_anchors(prop)
+    if stale:
+        log('%s: source of modelled code changed (%s): escalating the correspondence' % (pid, ', '.join(stale)))
+        n *= prop.escalation
     known_open, _ = load_known()
     broken = []          # obligations / correspondences that no longer check
     violations = []      # (case, failure) on the real code, not known
@@ -386,6 +434,7 @@ def check(prop, tier, seed):
             'input_distribution': stats,
             'float_tolerance': prop.float_tol,
             'broken_obligations': broken[:10],
+            'modelled_source_changed': stale,
             'known_findings_hit': sorted(known_hits),
         },
         'assumptions': list(prop.assumptions),
